@@ -110,10 +110,17 @@ func c08FixLists(r *rand.Rand, g *DocGen, w W) W {
 	return w
 }
 
+var c08KeysOdd = []string{"cpu%", "50%ile", "a b", "ü", "k:v", "#x", "%d", "a"}
+
 func c08Gen(r *rand.Rand) *DocGen {
 	g := stdGen()
-	if r.Intn(2) == 0 {
+	switch r.Intn(3) {
+	case 0:
 		g.Keys = c07KeysB
+	case 1:
+		// keys that are free of the path metacharacters '.', '[' and ']' but otherwise unusual
+		// (the property does not restrict keys beyond what a flatten-style path needs)
+		g.Keys = c08KeysOdd
 	}
 	g.MaxDepth = 3 + r.Intn(3)
 	g.PList = 0.35 + 0.3*r.Float64()
